@@ -450,6 +450,10 @@ func (g *graph) addBranch(startNode string, branch *GraphBranch, skipData bool) 
 	if branch == nil {
 		return errors.New("branch is nil")
 	}
+	// a copy: the bookkeeping below (idx, noDataFlow) belongs to this graph, the caller may add its branch value to
+	// other graphs as well
+	branchCopy := *branch
+	branch = &branchCopy
 
 	if startNode == END {
 		return errors.New("END cannot be a start node")
